@@ -203,6 +203,9 @@ func legA(c *core.Ctx) {
 		}
 	}
 	e.Run()
+	if !cfg.Multi {
+		scaleFaults(c, m, cfg, report)
+	}
 	for _, h := range e.Harness {
 		if m.Strict {
 			c.HarnessError("%s", h)
@@ -221,6 +224,95 @@ func legA(c *core.Ctx) {
 		s := e.States[len(e.States)/2]
 		c.Sample(map[string]any{"leg": "A", "machine": m.Name, "multi": cfg.Multi, "witness": fmt.Sprintf("%q", s.Witness), "state": s.Key})
 	}
+}
+
+// scaleFaults: the search is bounded in nesting and merges "one more element",
+// so no stack, map or token buffer of a front-end is ever grown in it. Every
+// document of the scale family (counts, depths and lengths on both sides of
+// every fixed capacity), every cut of it (all of them for a short text, the
+// ones next to the powers of two and to the end for a long one), the cut with
+// a closer of either kind behind it, and the refill sweep (every byte of an
+// element on the last byte of a 4096-byte read) go through the machine under
+// recover: []byte, one-byte reads (short texts), reads of 16 and of 4096 bytes.
+func scaleFaults(c *core.Ctx, m *mach.M, cfg mach.Config, report func(entry, mode string, chunks [][]byte, readErr int, o *mach.Out)) {
+	try := func(mode string, in []byte) {
+		runs := [][][]byte{nil, fixedReads(in, 16)}
+		if len(in) <= 300 {
+			runs = append(runs, mach.Bytewise(in))
+		}
+		if len(in) > 4096 {
+			runs = append(runs, fixedReads(in, 4096))
+		}
+		for _, chunks := range runs {
+			var o *mach.Out
+			if chunks == nil {
+				o = m.Whole(in, cfg)
+			} else {
+				o = m.Feed(chunks, cfg, false, false)
+			}
+			c.Eval()
+			c.Add("scale_family_runs", 1)
+			if o.Panic != nil {
+				if chunks == nil {
+					report("whole", mode, [][]byte{in}, 0, o)
+				} else {
+					report("reader", mode, chunks, 0, o)
+				}
+				return
+			}
+		}
+	}
+	for _, d := range gens.ScaleDocs(c.Quick()) {
+		if c.Expired("C06 scale family") {
+			return
+		}
+		t := gens.ScaleJSON(d.Tree)
+		mode := "scale-" + d.Name[:strings.IndexByte(d.Name, ':')]
+		try(mode, t)
+		var cuts []int
+		if len(t) <= 300 {
+			for i := 1; i < len(t); i++ {
+				cuts = append(cuts, i)
+			}
+		} else {
+			for p := 8; p < len(t); p *= 2 {
+				cuts = append(cuts, p-1, p, p+1)
+			}
+			cuts = append(cuts, len(t)-2, len(t)-1)
+		}
+		for _, i := range cuts {
+			if i <= 0 || i >= len(t) {
+				continue
+			}
+			try(mode+"-cut", t[:i])
+			for _, cl := range []byte{']', '}'} {
+				try(mode+"-cut-and-closed", append(append([]byte{}, t[:i]...), cl))
+			}
+		}
+	}
+	const unit = `{"k":"v\n","n":-12.5e1,"t":true,"\u0041":"\u0042c","p":"plain",` + "\n" + `"a":[null,false]},`
+	body := "[" + strings.Repeat(unit, 4700/len(unit)) + "0]"
+	for p := 0; p < len(unit); p++ {
+		if c.Expired("C06 refill sweep") {
+			return
+		}
+		in := []byte(strings.Repeat(" ", p) + body)
+		try("refill-sweep", in)
+		try("refill-sweep-cut", in[:4096])
+		try("refill-sweep-cut", in[:4097])
+	}
+}
+
+func fixedReads(data []byte, k int) [][]byte {
+	var out [][]byte
+	for i := 0; i < len(data); i += k {
+		e := i + k
+		if e > len(data) {
+			e = len(data)
+		}
+		out = append(out, data[i:e])
+	}
+	return out
 }
 
 // ------------------------------------------------------------------ leg B
